@@ -12,7 +12,8 @@ from vbcommon import World, VALID_BP_TOML, DEFAULT_TARGET_ENV, ensure_vb
 
 NAMES = [b"A", b"a.b", b"with space", b"=x", "ü".encode(), b"\xff"]
 FILE_CONTENTS = [b"", b"v", b"a\nb\n", b" x "]
-KINDS = [("file", c) for c in FILE_CONTENTS] + [("dir", None), ("link-file", b"via-link"), ("link-dir", None), ("dangling", None), ("file", b"\xff\xfe")]
+KINDS = [("file", c) for c in FILE_CONTENTS] + [("dir", None), ("link-file", b"via-link"), ("link-dir", None), ("dangling", None), ("file", b"\xff\xfe"),
+         ("link-file-relative", b"via-relative-link"), ("link-file-sibling", b"via-sibling-link")]
 
 TARGET_VARS = ["CNB_TARGET_OS", "CNB_TARGET_ARCH", "CNB_TARGET_ARCH_VARIANT", "CNB_TARGET_DISTRO_NAME", "CNB_TARGET_DISTRO_VERSION"]
 TARGET_FIELD = {"CNB_TARGET_OS": "os", "CNB_TARGET_ARCH": "arch", "CNB_TARGET_ARCH_VARIANT": "arch_variant", "CNB_TARGET_DISTRO_NAME": "distro_name", "CNB_TARGET_DISTRO_VERSION": "distro_version"}
@@ -71,6 +72,17 @@ def judge(w, case):
                 open(t, "wb").write(content)
                 os.symlink(t, path)
                 expect_env[hexs(name)] = hexs(content)
+            elif k == "link-file-relative":
+                # relative target resolved against the env directory (k8s style ..data/NAME)
+                os.makedirs(os.path.join(envdir, b"..data"), exist_ok=True)
+                open(os.path.join(envdir, b"..data", b"f%d" % name_i), "wb").write(content)
+                os.symlink(b"..data/f%d" % name_i, path)
+                expect_env[hexs(name)] = hexs(content)
+            elif k == "link-file-sibling":
+                t = w.p("platform", f"sib{name_i}").encode()
+                open(t, "wb").write(content)
+                os.symlink(b"../sib%d" % name_i, path)
+                expect_env[hexs(name)] = hexs(content)
             elif k == "link-dir":
                 os.symlink(w.p("targets", "d").encode(), path)
             else:
@@ -108,6 +120,24 @@ def judge(w, case):
             open(w.p("bp", "buildpack.toml"), "w").write(VALID_BP_TOML + f"\n[metadata]\n{body}")
     elif kind == "store-absent":
         pass
+    elif kind == "unreadable":
+        # an input file that exists but cannot be represented: must be a reported error
+        target = {"store": w.p("layers", "store.toml"), "plan": w.p("bp_plan.toml"), "descriptor": w.p("bp", "buildpack.toml")}[case["where"]]
+        if os.path.exists(target):
+            os.unlink(target)
+        if case["how"] == "non-utf8":
+            open(target, "wb").write(b"[metadata]\nk = \"\xff\xfe\"\n")
+        elif case["how"] == "directory":
+            os.mkdir(target)
+        elif case["how"] == "dangling":
+            os.symlink(w.p("nowhere"), target)
+            # a dangling store.toml is indistinguishable from an absent one for open(2): only
+            # required for plan and descriptor
+            expect_error = case["where"] != "store"
+        else:
+            open(target, "w").write("[metadata\n")
+        if case["how"] != "dangling":
+            expect_error = True
     if env is None:
         r = w.run(phase, {})
     else:
@@ -127,7 +157,7 @@ def judge(w, case):
             if kind == "target" and case["values"][2] == 3 and all(x not in (None, 3) for i, x in enumerate(case["values"]) if i != 2):
                 sig = "arch-variant-not-unicode"
             bad(sig, f"an input that cannot be represented (or a missing mandatory variable) did not produce an error: exit {r.returncode}, phase ran={dump is not None}, context target={dump and dump['context'].get('target')}")
-        elif marks.count("on_error") != 1:
+        elif marks.count("on_error") != 1 and not (kind == "unreadable" and case["where"] == "descriptor"):
             bad("error-not-reported-through-on-error", f"exit {r.returncode} but on_error ran {marks.count('on_error')} times")
         return v, outcome
     if r.returncode != 0 or dump is None:
@@ -240,6 +270,9 @@ def cases(thorough):
     for n in (0, 2):
         out.append({"kind": "toml", "where": "plan", "entries": n, "value": tuple_to_json(("s", "x"))})
     out.append({"kind": "store-absent"})
+    for where in ("store", "plan", "descriptor"):
+        for how in ("non-utf8", "directory", "dangling", "malformed"):
+            out.append({"kind": "unreadable", "where": where, "how": how})
     return out
 
 
